@@ -116,6 +116,22 @@ def run_replay(binary, replay_json, timeout=30):
         return 4, "replay timed out (native run hangs)"
 
 
+MEMSAFETY_RE = re.compile(r"dereference failure|rust_dealloc|pointer invalid|deallocated|double free|free argument|pointer outside|pointer NULL|out of bounds", re.I)
+
+
+def run_replay_memcheck(binary, replay_json, timeout=300):
+    """CBMC's pointer checks (use after free, double free, wrong deallocation) do not crash a native run; such a
+    counterexample is confirmed by replaying it under valgrind memcheck (rc 9 = memcheck reported an error)."""
+    try:
+        p = subprocess.run(["valgrind", "-q", "--error-exitcode=9", "--leak-check=no", binary, replay_json],
+                           stdout=subprocess.PIPE, stderr=subprocess.STDOUT, text=True, timeout=timeout)
+        return p.returncode, p.stdout
+    except subprocess.TimeoutExpired:
+        return 4, "replay under valgrind timed out"
+    except OSError as e:
+        return 0, "valgrind not available: %s" % e
+
+
 # ---------------------------------------------------------------------------------------------
 
 def run_one(name, meta, cfg, workdir, tier):
@@ -303,6 +319,11 @@ def check(prop, tier, seed, selected, build_dir, workdir, args, t_start):
             cands.append((pname, desc, loc, primary))
         for (pname, desc, loc) in c["unwind_fail"]:
             f = loc.get("file", "")
+            fn = loc.get("function", "") + " " + pname
+            # a loop of the library itself (monomorphised code sometimes loses its file name: "src/lib.rs:0")
+            in_repo = "/repo/src" in f or ("multiqueue2::" in fn and "mq2_harness" not in fn.split("multiqueue2::")[0])
+            if in_repo:
+                f = f if "/repo/src" in f else "/repo/src (function %s)" % loc.get("function", pname)
             uv = R.HARNESSES.get(h, {}).get("unwind_violation")
             if "/repo/src" in f and uv:
                 cands.append((pname, "%s: %s at %s:%s (a loop of the queue does not terminate: the call never returns)" % (uv, desc, f, loc.get("line")), loc, uv))
@@ -364,6 +385,7 @@ def check(prop, tier, seed, selected, build_dir, workdir, args, t_start):
                            schedule=summarize_trace(trace), tier=tier)
                 json.dump(rep, open(rep_path, "w"), indent=1)
                 reproduced = True
+                memcheck_confirmed = False
                 stubmm = R.HARNESSES.get(h, {}).get("mod") != "scen_mem"
                 for profile in ("debug", "release"):
                     key = profile + ("+stubmm" if stubmm else "")
@@ -378,6 +400,14 @@ def check(prop, tier, seed, selected, build_dir, workdir, args, t_start):
                         continue
                     rc, txt = run_replay(replay_bin[key], rep_path)
                     out_txt += "[%s] rc=%d %s\n" % (profile, rc, txt[-600:])
+                    if rc == 0 and profile == "debug" and MEMSAFETY_RE.search(desc) and not re.match(r'^"?C\d\d', desc):
+                        rc, txt = run_replay_memcheck(replay_bin[key], rep_path)
+                        out_txt += "[%s, valgrind memcheck] rc=%d %s\n" % (profile, rc, txt[-900:])
+                        if rc == 9:
+                            memcheck_confirmed = True
+                            continue
+                    if rc == 0 and profile == "release" and memcheck_confirmed:
+                        continue
                     if rc not in (1, 4):
                         reproduced = False if reproduced is not None else None
             item = dict(harness=h, prop=vprop, desc=desc, where=where, replay=rep_path, reproduced=reproduced,
